@@ -13,6 +13,10 @@ out = {}
 st = run(["git", "diff", "--quiet", "--", "rockit"]).returncode
 if st != 0:
     run(["git", "checkout", "--", "rockit"])
+# confirm against the current HEAD of /repo
+head = subprocess.run(["git", "-C", "/repo", "rev-parse", "HEAD"], capture_output=True, text=True).stdout.strip()
+run(["git", "checkout", "-q", "--detach", head])
+out["head"] = head
 out["demo_without"] = demo()
 a = run(["git", "apply", "patch.diff"])
 out["apply"] = a.returncode
